@@ -34,7 +34,70 @@ KEYS = ['1b5b41', '1b5b42', '1b5b43', '1b5b44', '1b5b5a', '1b5b337e', '1b5b357e'
 EXITS = ['accept', 'abort', 'ctrl-c', 'sigterm', 'sigint', 'accept', 'abort']
 
 
+GEOM_BASE = 500000   # scenario numbers with (seed mod 1000003) >= GEOM_BASE are the directed geometry family
+
+
+def gen_geometry(seed, tier):
+    """Directed: items that take several screen rows (--read0 records with embedded newlines, --wrap of
+    long / wide lines), --gap, small windows, and cursor / scroll movement to every edge of the list."""
+    r = random.Random(seed)
+    read0 = r.random() < 0.5
+    n = r.choice([2, 4, 6, 9, 15, 40])
+    lines = []
+    for k in range(n):
+        if read0:
+            parts = [r.choice(['aaa', 'bbb ccc', '日本語', 'x' * r.choice([5, 30, 90]), '', 'tab\tq']) for _ in range(r.choice([1, 2, 2, 3, 5]))]
+            lines.append(('%d ' % k + '\n'.join(parts)).encode())
+        else:
+            lines.append(('%d ' % k + r.choice(['short', 'w' * r.choice([30, 70, 150, 400]), 'ＷＩＤＥ' * r.choice([3, 12, 40]), 'mix 日本 ' * r.choice([2, 9, 30])])).encode())
+    a = ['--no-color'] if r.random() < 0.5 else []
+    a.append('--layout=' + r.choice(['default', 'reverse', 'reverse-list']))
+    if read0:
+        a.append('--read0')
+    if not read0 or r.random() < 0.4:
+        a.append('--wrap')
+    if r.random() < 0.8:
+        a.append('--gap=%d' % r.choice([1, 1, 2, 3]))
+    if r.random() < 0.25:
+        a.append('--border=' + r.choice(['rounded', 'horizontal', 'top', 'none']))
+    if r.random() < 0.2:
+        a.append('--info=' + r.choice(['inline', 'hidden', 'right']))
+    if r.random() < 0.2:
+        a.append('--header=' + r.choice(['H', 'two\nlines']))
+    if r.random() < 0.15:
+        a.append('--header-lines=1')
+    if r.random() < 0.3:
+        a.append('--multi')
+    if r.random() < 0.15:
+        a.append('--no-input')
+    if r.random() < 0.15:
+        a.append('--cycle')
+    if r.random() < 0.15:
+        a.append('--scroll-off=%d' % r.choice([0, 1, 5]))
+    if r.random() < 0.15:
+        a.append('--highlight-line')
+    if r.random() < 0.1:
+        a.append('--marker-multi-line=' + r.choice(['╻┃╹', 'abc']))
+    w, h = r.choice([20, 40, 60, 80]), r.choice([4, 5, 6, 7, 8, 9, 10, 11, 12, 13, 14, 24])
+    moves = ['down', 'down', 'down', 'up', 'up', 'last', 'first', 'page-down', 'page-up', 'half-page-down', 'half-page-up', 'offset-down', 'offset-up',
+             'offset-middle', 'toggle', 'toggle-wrap', 'toggle-multi-line', 'pos(3)', 'pos(-1)', 'toggle-input', 'change-query(1)', 'clear-query', 'toggle-sort']
+    steps = []
+    for _ in range(r.randint(4, 16 if tier == 'quick' else 60)):
+        x = r.random()
+        if x < 0.85:
+            k = r.choice([1, 1, 2, 4, 12])
+            m = r.choice(moves)
+            steps.append(('post', '+'.join([m] * k) if m in ('down', 'up') else m))
+        else:
+            steps.append(('resize', (r.choice([20, 40, 60]), r.choice([3, 4, 5, 6, 7, 8, 9, 10, 12]))))
+    marker = '9%07d' % (seed % 10**7)
+    return dict(seed=seed, lines=lines, args=a, w=w, h=h, steps=steps, exit=r.choice(EXITS), endless=False, marker=marker,
+                exit_delay=0, read0=read0)
+
+
 def gen_scenario(seed, tier):
+    if seed % 1000003 >= GEOM_BASE:
+        return gen_geometry(seed, tier)
     r = random.Random(seed)
     n = r.choice([0, 1, 2, 5, 12, 30, 60])
     lines = []
@@ -160,7 +223,11 @@ def run_scenario(fzf, tmp, sc):
     s = None
     res = dict(alive=0, exit='none', stty=0, alt=-1, mouse=-1, tmp=-1, kids=-1, err=0)
     try:
-        s = Session(fzf, sc['args'], sc['lines'], tmp, width=sc['w'], height=sc['h'],
+        extra = {}
+        if sc.get('read0'):
+            data = b''.join(l + b'\0' for l in sc['lines'])
+            extra = dict(input_cmd="cat '{d}/in0'", prepare=lambda d: open(os.path.join(d, 'in0'), 'wb').write(data))
+        s = Session(fzf, sc['args'], sc['lines'], tmp, width=sc['w'], height=sc['h'], **extra,
                     wrap="stty -g > '{d}/stty.before'; mkdir -p '{d}/tmpdir'; export TMPDIR='{d}/tmpdir'; %s; stty -g > '{d}/stty.after'; sleep 600")
         st = s.wait_ready(10.0)
         if st is None:
@@ -276,7 +343,7 @@ def describe(sc):
 def drv_robust(tier, seed, ctx):
     from vcheck import evaluate
     n = 60 if tier == 'quick' else 1200
-    seeds = [seed * 1000003 + k for k in range(n)]
+    seeds = [seed * 1000003 + k for k in range(n)] + [seed * 1000003 + GEOM_BASE + k for k in range(n // 3)]
     scs = [gen_scenario(x, tier) for x in seeds]
     notes = []
 
